@@ -196,30 +196,45 @@ def sendQualityReport (e : Endpoint) (now : Nat) : Endpoint :=
   let adv := max (-32768) (min 32767 e.localFrameAdvantage)
   e.queueMessage now (.qualityReport adv (now / 1000))
 
+/-- The two silence timers of `poll` (Running state): NetworkInterrupted after the notify delay,
+Disconnected after the disconnect timeout, each at most once per silence. -/
+def checkTimeouts (e : Endpoint) (now : Nat) : Endpoint :=
+  let e := if !e.disconnectNotifySent && e.lastRecvTime + e.disconnectNotifyStart < now then
+             { e with eventQueue := e.eventQueue ++
+                        [.networkInterrupted ((e.disconnectTimeout - e.disconnectNotifyStart) / 1000)],
+                      disconnectNotifySent := true }
+           else e
+  if !e.disconnectEventSent && e.lastRecvTime + e.disconnectTimeout < now then
+    { e with eventQueue := e.eventQueue ++ [.disconnected], disconnectEventSent := true }
+  else e
+
+/-- Running state, first timer: resend the unacknowledged inputs if none arrived for a while. -/
+def retryPending (e : Endpoint) (now : Nat) (connectStatus : List ConnStatus) : M Endpoint :=
+  if e.runningLastInputRecv + ms RUNNING_RETRY_INTERVAL < now then do
+    let e ← e.sendPendingOutput now connectStatus
+    pure { e with runningLastInputRecv := now }
+  else pure e
+
+/-- Running state: the periodic quality report and the keep-alive. -/
+def periodicReports (e : Endpoint) (now : Nat) : Endpoint :=
+  let e := if e.runningLastQualityReport + ms QUALITY_REPORT_INTERVAL < now then e.sendQualityReport now else e
+  if e.lastSendTime + ms KEEP_ALIVE_INTERVAL < now then e.queueMessage now .keepAlive else e
+
+/-- The state-dependent part of `poll`. -/
+def pollState (e : Endpoint) (now : Nat) (connectStatus : List ConnStatus) : M Endpoint :=
+  match e.state with
+  | .synchronizing =>
+    pure (if e.lastSyncRequestTime + ms SYNC_RETRY_INTERVAL < now then e.sendSyncRequest now else e)
+  | .running => do
+    let e ← e.retryPending now connectStatus
+    pure ((e.periodicReports now).checkTimeouts now)
+  | .disconnected =>
+    pure (if e.shutdownTimeout < now then { e with state := .shutdown } else e)
+  | _ => pure e
+
 /-- `poll`: timers. Returns the drained event queue. -/
 def poll (e : Endpoint) (now : Nat) (connectStatus : List ConnStatus) : M (Endpoint × List ProtoEvent) := do
-  let e ← match e.state with
-    | .synchronizing =>
-      pure (if e.lastSyncRequestTime + ms SYNC_RETRY_INTERVAL < now then e.sendSyncRequest now else e)
-    | .running => do
-      let e ← if e.runningLastInputRecv + ms RUNNING_RETRY_INTERVAL < now then do
-                let e ← e.sendPendingOutput now connectStatus
-                pure { e with runningLastInputRecv := now }
-              else pure e
-      let e := if e.runningLastQualityReport + ms QUALITY_REPORT_INTERVAL < now then e.sendQualityReport now else e
-      let e := if e.lastSendTime + ms KEEP_ALIVE_INTERVAL < now then e.queueMessage now .keepAlive else e
-      let e := if !e.disconnectNotifySent && e.lastRecvTime + e.disconnectNotifyStart < now then
-                 { e with eventQueue := e.eventQueue ++
-                            [.networkInterrupted ((e.disconnectTimeout - e.disconnectNotifyStart) / 1000)],
-                          disconnectNotifySent := true }
-               else e
-      let e := if !e.disconnectEventSent && e.lastRecvTime + e.disconnectTimeout < now then
-                 { e with eventQueue := e.eventQueue ++ [.disconnected], disconnectEventSent := true }
-               else e
-      pure e
-    | .disconnected =>
-      pure (if e.shutdownTimeout < now then { e with state := .shutdown } else e)
-    | _ => pure e
+  let e ← e.pollState now connectStatus
   return ({ e with eventQueue := [] }, e.eventQueue)
 
 /-- `send_all_messages`: drains the send queue; nothing leaves a shut-down endpoint. -/
@@ -280,34 +295,44 @@ def acceptInputs (e : Endpoint) (startFrame : Frame) : List Bytes → Nat → En
         let evs := pis.zipIdx.map fun (pi, j) => ProtoEvent.input pi (e.handles.getD j 0)
         acceptInputs { e with eventQueue := e.eventQueue ++ evs } startFrame rest (i + 1)
 
+/-- First half of `on_input` after the shape checks: apply the piggy-backed ack and the
+connection-status gossip (or the disconnect request). -/
+def applyInputHeader (e : Endpoint) (status : List ConnStatus) (disconnectRequested : Bool)
+    (ackFrame : Frame) : Endpoint :=
+  let e := e.popPendingOutput ackFrame
+  if disconnectRequested then
+    if e.state != .disconnected && !e.disconnectEventSent then
+      { e with eventQueue := e.eventQueue ++ [.disconnected], disconnectEventSent := true }
+    else e
+  else { e with peerConnectStatus := mergeStatus e.peerConnectStatus status }
+
+/-- What happens once a payload decoded: accept the new frames, acknowledge, prune. -/
+def acceptDecoded (e : Endpoint) (now : Nat) (startFrame : Frame) (inputs : List Bytes) : Endpoint :=
+  let r := acceptInputs e startFrame inputs 0
+  if !r.2 then r.1
+  else
+    let e := r.1.sendInputAck now
+    let last := e.lastRecvFrame
+    { e with recvInputs := e.recvInputs.filter fun p => p.1 ≥ last - 2 * (e.maxPrediction : Int) }
+
+/-- Second half of `on_input`: find the reference input, decode, accept. -/
+def decodeInputs (e : Endpoint) (now : Nat) (startFrame : Frame) (bytes : Bytes) : Endpoint :=
+  let decodeFrame := if e.lastRecvFrame == NULL_FRAME then NULL_FRAME else startFrame - 1
+  match alookup decodeFrame e.recvInputs with
+  | none =>
+    -- the reference input is gone (pruned) or was never seen: not decodable, but acknowledged
+    e.sendInputAck now
+  | some reference =>
+    let e := { e with runningLastInputRecv := now }
+    match Codec.decode reference bytes with
+    | .error _ => e
+    | .ok inputs => e.acceptDecoded now startFrame inputs
+
 def onInput (e : Endpoint) (now : Nat) (status : List ConnStatus) (disconnectRequested : Bool)
     (startFrame ackFrame : Frame) (bytes : Bytes) : Endpoint :=
   if !disconnectRequested && status.length != e.numPlayers then e
   else if startFrame < 0 then e
-  else
-    let e := e.popPendingOutput ackFrame
-    let e :=
-      if disconnectRequested then
-        if e.state != .disconnected && !e.disconnectEventSent then
-          { e with eventQueue := e.eventQueue ++ [.disconnected], disconnectEventSent := true }
-        else e
-      else { e with peerConnectStatus := mergeStatus e.peerConnectStatus status }
-    let decodeFrame := if e.lastRecvFrame == NULL_FRAME then NULL_FRAME else startFrame - 1
-    match alookup decodeFrame e.recvInputs with
-    | none =>
-      -- the reference input is gone (pruned) or was never seen: not decodable, but acknowledged
-      e.sendInputAck now
-    | some reference =>
-      let e := { e with runningLastInputRecv := now }
-      match Codec.decode reference bytes with
-      | .error _ => e
-      | .ok inputs =>
-        let (e, complete) := acceptInputs e startFrame inputs 0
-        if !complete then e
-        else
-          let e := e.sendInputAck now
-          let last := e.lastRecvFrame
-          { e with recvInputs := e.recvInputs.filter fun p => p.1 ≥ last - 2 * (e.maxPrediction : Int) }
+  else (e.applyInputHeader status disconnectRequested ackFrame).decodeInputs now startFrame bytes
 
 def onSyncReply (e : Endpoint) (now : Nat) (magic random : Nat) : Endpoint :=
   if e.state != .synchronizing then e
@@ -332,13 +357,18 @@ def onChecksumReport (e : Endpoint) (checksum : Nat) (frame : Frame) : M Endpoin
     else e.pendingChecksums
   return { e with pendingChecksums := ainsert frame checksum pc }
 
+/-- Receive bookkeeping of `handle_message`: the silence timer restarts, an interrupted
+connection is reported as resumed. -/
+def noteReceived (e : Endpoint) (now : Nat) : Endpoint :=
+  let e := { e with lastRecvTime := now }
+  if e.disconnectNotifySent && e.state == .running then
+    { e with disconnectNotifySent := false, eventQueue := e.eventQueue ++ [.networkResumed] }
+  else e
+
 def handleMessage (e : Endpoint) (now : Nat) (msg : Msg) : M Endpoint := do
   if e.state == .shutdown then return e
   if e.remoteMagic != 0 && msg.magic != e.remoteMagic then return e
-  let e := { e with lastRecvTime := now }
-  let e := if e.disconnectNotifySent && e.state == .running then
-      { e with disconnectNotifySent := false, eventQueue := e.eventQueue ++ [.networkResumed] }
-    else e
+  let e := e.noteReceived now
   match msg.body with
   | .syncRequest r => return e.queueMessage now (.syncReply r)
   | .syncReply r => return e.onSyncReply now msg.magic r
